@@ -658,6 +658,18 @@ class AssignmentCheck(Check):
         b = rng.choice(["4", "5", "8", "9", "cube4D_12", "randomQ_7", "cube4D_17", "randomQ_10", "20", "1"])
         o = rng.choice(["1", "4", "7", "12", "ico_9", "cube3D_14", "randomS_11", "20", "26", "2"])
         t = rng.choice(["[0.2, 0.3, 0.4]", "[0.15, 0.3]", "linspace(0.2, 0.6, 4)", "[0.2, 0.25, 0.5]"])
+        radii_nm = None
+        if rng.random() < 0.35:
+            # generated radial grids: 2-6 radii; often "almost regular" - end points of an equally spaced grid with
+            # the interior radii moved - so that shortcuts for regular grids are probed at their boundary
+            nt = rng.randint(2, 6)
+            r0, step = rng.choice([0.15, 0.2, 0.3]), rng.choice([0.08, 0.1, 0.15])
+            radii_nm = [round(r0 + i * step, 4) for i in range(nt)]
+            if nt >= 3 and rng.random() < 0.7:
+                for i in range(rng.choice([1, 2]) if nt > 3 else 1, nt - 1):
+                    radii_nm[i] = round(radii_nm[i] + rng.choice([-0.3, -0.2, 0.2, 0.3]) * step, 4)
+                radii_nm = sorted(set(radii_nm))
+            t = "[" + ", ".join(repr(x) for x in radii_nm) + "]"
         if rng.random() < 0.3:
             mol2 = {"source": "repo", "file": rng.choice(["H2O.gro", "H2O.xyz"])}
         else:
@@ -676,8 +688,9 @@ class AssignmentCheck(Check):
             if via_files and mol2.get("kind") == "planar":
                 via_files = False  # xtc keeps 0.01 A: a planar >3-atom molecule is not planar any more in the file
             return {"kind": "backassign", **common, "via_files": via_files, "ops": []}
-        radii = {"[0.2, 0.3, 0.4]": [2, 3, 4], "[0.15, 0.3]": [1.5, 3], "linspace(0.2, 0.6, 4)": [2, 10 / 3, 14 / 3, 6],
-                 "[0.2, 0.25, 0.5]": [2, 2.5, 5]}[t]
+        radii = [10 * x for x in radii_nm] if radii_nm else \
+            {"[0.2, 0.3, 0.4]": [2, 3, 4], "[0.15, 0.3]": [1.5, 3], "linspace(0.2, 0.6, 4)": [2, 10 / 3, 14 / 3, 6],
+             "[0.2, 0.25, 0.5]": [2, 2.5, 5]}[t]
         rmax = radii[-1] + (radii[-1] - radii[-2]) / 2
         mode = rng.choice(["walk", "walk", "iid", "mixed"])
         n = rng.choice([20, 60, 150, rng.randint(20, 400 if tier == "quick" else 600), rng.choice([1, 2, 3, 5])])
